@@ -41,6 +41,10 @@ CHECKS = {
    technique="TLC model checking of spec/Dangling.tla (error origin, wrapper chain Try/Shared/FromPrimitive, Option reader; DanglingIsNull over kind x carrier x mode x optional/required) crossed with every keyed field of every derived typed model (source extractor) and replayed through the real readers",
    text="The spec fixes, for every dangling kind, carrier and mode, what reading the containing object must yield and TLC refutes the 'only unwrapped errors match' deviation; the outcome table is crossed with all ~330 keyed fields of the 42 typed models found in the sources at check time, each planted into a generated minimal valid dictionary (entry, array element, dictionary value) and read through the model's real reader in strict and tolerant mode.",
    note="Minimal dictionaries are generated from field types; models whose minimal dictionary does not load are listed as not covered. The element-level finding is recorded and suppressed by class."),
+ "C08": dict(level="model_checking", design="5/C08", engine="A:content",
+   technique="TLC model checking of spec/Content.tla (serializer with look-ahead merges and current point x parser with operand buffer and last point, product machine; RoundTrip) + the operator table as spec data (spec/ContentTable.tla) + replay through serialize_ops/parse_ops",
+   text="TLC checks Parse(Serialize(ops)) = ops for every sequence up to the bound over the merge-relevant alphabet and over all operation variants and refutes three deviations (TD pairing, sh dropped, ri without slash); all sequences are executed against the real serializer/parser at several numeric scales, and every row of the operator table is parsed from text printed by an independent operand printer and compared with the denoted operations, including the absence of operand leaks.",
+   note="Small operand domains in the model; 7 of 73 table operators have no operation in the library's alphabet and are listed as not covered; v/y after re/h (current point set by other operators) is not part of the table test."),
 }
 
 def main():
